@@ -4,7 +4,7 @@
    correspondence check compares that image with the real lexer run on the real printer's output);
    the refutations run the whole model -- lexer, parser, printer -- on concrete texts. *)
 From LR Require Import lib.Base lib.GoStr model.LqlAst model.LqlLex model.LqlParse model.LqlPrint model.LqlEval.
-From LR Require Import proofs.LqlParseP proofs.LqlStmtP proofs.LqlIntP proofs.LqlLexP proofs.LqlTextP proofs.LqlQuoteP.
+From LR Require Import proofs.LqlParseP proofs.LqlStmtP proofs.LqlIntP proofs.LqlLexP proofs.LqlTextP proofs.LqlQuoteP proofs.LqlProdP.
 From Coq Require Import Strings.String.
 Local Open Scope string_scope.
 Local Open Scope list_scope.
@@ -22,6 +22,18 @@ Corollary C12_expr_meaning : forall e, wf_expr e = true -> exists e', parse_expr
   (forall pm tu tl, build_tags pm tu tl (Some (SrcExpr e')) = build_tags pm tu tl (Some (SrcExpr e))).
 Proof. intros e H. exists e. split; [exact (parse_print_expr e H)|split; reflexivity]. Qed.
 Print Assumptions C12_expr_meaning.
+
+(* Producibility: every expression lql.ParseExpr returns, from any text whatever, is well-formed (the lexer's Ident
+   tokens are not keyword texts, its Keyword tokens are; the parser takes a leading NOT as the negation and only
+   grammar operators as operators) -- so "whatever filter expression the parser accepts" is covered by C12_expr *)
+Theorem C12_expr_producible : forall unq text e, parse_expr_text unq text = Some (Some e) -> wf_expr e = true.
+Proof. exact parse_expr_text_wf. Qed.
+Print Assumptions C12_expr_producible.
+
+Corollary C12_expr_accepted : forall unq text e, parse_expr_text unq text = Some (Some e) ->
+  parse_expr_tokens (tk_expr e) = Some e.
+Proof. intros unq text e H. exact (parse_print_expr e (parse_expr_text_wf unq text e H)). Qed.
+Print Assumptions C12_expr_accepted.
 
 (* At byte level: lql.ParseExpr applied to the text that Expression.String() prints returns the expression.
    Hypotheses about the text: ASCII identifier-shaped operands / word operators (wt_cond); the quoting function
